@@ -18,6 +18,7 @@ EXPLANATION = (
     "are made with fold=0 and fold=1 whatever the input's fold; (4) the reconstruction in create() and in "
     "FixedTimezone.convert copies every field. NOT decided: gap lengths / which wall times are skipped per "
     "zone, the UTC round trip (zone data at run time)."
+    ' Also: inside the conversion functions a read of `.seconds` of a timedelta is paired with `.days` (a gap or offset difference is never taken modulo one day).'
 )
 
 F7 = recon.DATE_F + recon.TIME_F
